@@ -1,8 +1,10 @@
 use crate::common::Prop;
 
 pub mod c01;
+pub mod c02;
 pub mod c08;
+pub mod c10;
 
 pub fn all() -> Vec<Box<dyn Prop>> {
-    vec![Box::new(c01::C01), Box::new(c08::C08)]
+    vec![Box::new(c01::C01), Box::new(c02::C02), Box::new(c08::C08), Box::new(c10::C10)]
 }
